@@ -113,9 +113,20 @@ func verifIndex(events []string, e string) int {
 func verifC10(gcs bool, maxFaults int) {
 	f := verifNewFixture(gcs, false)
 	verifAssume(f.bootstrap() == nil, "fault-free bootstrap succeeds")
+	verifFaultCount, verifMaxFaults = 0, maxFaults
+	if maxFaults > 1 {
+		// thorough tier: a first attempt that may already have failed and left things behind
+		f.signer.faults, f.km.faults, f.storage.faults = true, true, true
+		_, err0 := f.rotateOnce(f.ca, false, time.Unix(int64(verifNondetU32("t0")), 0))
+		f.signer.faults, f.km.faults, f.storage.faults = false, false, false
+		if err0 != nil {
+			verifReach("first-attempt-failed")
+		}
+		f.verifHealthy(f.newCA(), "after the first of two attempts")
+		f.ca = f.newCA()
+	}
 	old, _ := f.ca.PrimarySigningKeyVersion(f.ctx(f.ca, false))
 	verifEvents = nil
-	verifFaultCount, verifMaxFaults = 0, maxFaults
 	f.signer.faults, f.km.faults, f.storage.faults = true, true, true
 	t1 := time.Unix(int64(verifNondetU32("t1")), 0)
 	kver, err := f.rotateOnce(f.ca, false, t1)
